@@ -296,6 +296,22 @@ impl VmCtl {
     }
 
     /// Run the reachability audit now (used by the harness at run end / host returns)
+    /// at the end of a run no guard may be alive any more (guards are scoped to an instruction or a
+    /// host call): an object whose guard was never released stays protected for ever
+    pub fn check_no_live_guards(&self, when: &str) {
+        let mut s = self.0.borrow_mut();
+        let live: u32 = s.guards.values().sum();
+        if live > 0 {
+            s.finding(
+                "guard-never-released",
+                json!({"inv": "guard-never-released"}),
+                format!("{live} object guard(s) created during the run were never released ({when}): the objects stay protected from collection until clear"),
+            );
+            // judged once per run
+            s.guards.clear();
+        }
+    }
+
     pub fn audit_now(&self, rt: &RuntimeData, when: &str) {
         let mut s = self.0.borrow_mut();
         if s.cfg.quarantine {
